@@ -172,14 +172,21 @@ type tracked struct{ live, orig []int }
 
 var sources []tracked
 
+// newSlice builds the source slice as a WINDOW of a larger backing array (guard cells in front, spare
+// capacity behind, so cap > len): a combinator that appends to or writes around a source slice is
+// caught by comparing the whole backing array afterwards ("source slices are never modified").
 func newSlice(ts []term, e env) []int {
-	xs := make([]int, len(ts))
-	for i, t := range ts {
-		xs[i] = t.eval(e)
+	const guard, spare = 2, 4
+	backing := make([]int, guard+len(ts)+spare)
+	for i := range backing {
+		backing[i] = -7770 - i
 	}
-	orig := append([]int(nil), xs...)
-	sources = append(sources, tracked{xs, orig})
-	return xs
+	for i, t := range ts {
+		backing[guard+i] = t.eval(e)
+	}
+	orig := append([]int(nil), backing...)
+	sources = append(sources, tracked{backing, orig})
+	return backing[guard : guard+len(ts)]
 }
 
 func sourcesIntact() bool {
